@@ -15,7 +15,7 @@ import rules_c18
 import mutsum
 from framework import Result
 from interp import Interp, explore
-from values import Agg, Box_, Opaque, Ref, Sym, Unanalysable, ok, unit
+from values import Agg, Box_, Bytes, Opaque, Payload, Ref, Sym, Unanalysable, ok, unit
 
 PANICKY = re.compile(r"(::unwrap$|::expect$|::unwrap_err$|panic_fmt$|panicking::|::index$|::index_mut$|::borrow_mut$|RefCell::<T>::borrow$|"
                      r"::random_range$|::int_in_range$|::copy_from_slice$|::remove$|::swap_remove$|::split_at$|unreachable|::clamp$|::from_utf8_unchecked$|"
@@ -144,7 +144,7 @@ def rule_C09(env):
                 elif ty == "bool":
                     args.append(G.LazyBool("arg%d" % i))
                 elif ty.startswith("&[u8]"):
-                    args.append(Ref(Box_(Opaque("data"), "data"), ()))
+                    args.append(Ref(Box_(Bytes([("pay", Payload("bytes", range(256), Sym("data_len", (), "usize", 0, 1 << 20), origin="entry_data"))], False), "data"), ()))
                 elif "protocol::Version" in ty:
                     args.append(ctx.version_value(3))
                 else:
